@@ -127,6 +127,29 @@ JudgeSound ==
   /\ (main = "failed" => V!MayFail(cfg, obs))
   \* a message in the channel or a matching/refused worker means the judge expects an exit
   /\ (chan # <<>> => V!MustHaveExited(cfg, obs))
+\* ---- the typed transcription of the observer used by the Apalache proof agrees with Vanity.tla --------------------
+\* (threaded mode; in every reachable state, for every worker and candidate: the guards, the exits and the updates)
+OA == INSTANCE VanityObsOps
+AllT == {MainT} \cup Workers
+PSeen(s) == DOMAIN s.cand \ {s.mainT}
+PCand(s) == [t \in AllT |-> IF t \in DOMAIN s.cand THEN s.cand[t] ELSE 0]
+PSt(s) == [t \in AllT |-> IF t \in DOMAIN s.st THEN s.st[t] ELSE "none"]
+\* two representations agree where the observer looks: on the seen workers and the main thread
+SameObs(s, seen, c, st) ==
+  /\ PSeen(s) = seen
+  /\ \A t \in seen \cup {MainT} : PCand(s)[t] = c[t]
+  /\ \A t \in seen : PSt(s)[t] = st[t]
+ObsTranscriptionAgrees ==
+  (N > 0 /\ obs.main = "wait") =>
+    LET seen == PSeen(obs)  c == PCand(obs)  st == PSt(obs) IN
+    /\ obs.mainT = MainT
+    /\ OA!OMayFail(obs.main, seen, st) = V!MayFail(cfg, obs)
+    /\ OA!OMustHaveExited(cfg.matching, N, obs.main, seen, c, st) = V!MustHaveExited(cfg, obs)
+    /\ \A p \in 1..K : OA!OMayPrint(cfg.matching, N, obs.main, seen, c, st, p) = V!MayPrint(cfg, obs, p)
+    /\ \A t \in Workers :
+         /\ OA!OMayRequest(cfg.matching, N, obs.main, seen, c, st, t) = V!MayRequest(cfg, obs, t)
+         /\ SameObs(V!WorkerRefuse(cfg, obs, t), seen \cup {t}, OA!ORefuseCand(seen, c, t), OA!ORefuseSt(st, t))
+         /\ \A p \in 1..K : SameObs(V!WorkerGrant(cfg, obs, t, p), seen \cup {t}, OA!OGrantCand(c, t, p), OA!OGrantSt(st, t))
 NoPhraseAfterMainRefusal == obs.main = "failed" => main = "failed" /\ out = 0
 AtMostOnePrint == main = "printed" => out # 0
 ExitsWhenMessagePending == (chan # <<>>) ~> (main \in {"printed", "failed"})
